@@ -52,6 +52,8 @@ MUTS = {
                          "\t1, 1, 1, 1, 1, 1, 1, 1, 1, 1, 1, 1, 1, 0, 1, 1,  /*  00 -  0F control chars */\n\t1, 1, 1, 1, 1, 1, 1, 1, 1, 1, 1, 1, 1, 1, 1, 1,  /*  10 -  1F */\n\t1, 0, 1, 1, 1, 1, 1, 1, 0, 0, 0, 1, 1, 0, 0, 0,  /*  20 -  2F space \" # $ % & ' + , */", ["C04"]),
  "symlink-walk-stops-early": ("src/stat_cache.c", "    } while ((s_cur = strrchr(buf, '/')) > buf); /*(&buf[0]==buf; NULL < buf)*/", "    } while ((s_cur = strrchr(buf, '/')) > buf + 8); /*(&buf[0]==buf; NULL < buf)*/", ["C02"]),
  "digest-uri-unchecked": ("src/mod_auth.c", "    if (!buffer_eq_slen(&r->target_orig, dp->ptr[e_uri], dp->len[e_uri])) {", "    if (0 && !buffer_eq_slen(&r->target_orig, dp->ptr[e_uri], dp->len[e_uri])) {", ["C16"]),
+ "hpack-enc-evict": ("src/ls-hpack/lshpack.c", "    while (enc->hpe_cur_capacity > enc->hpe_max_capacity)\n        henc_drop_oldest_entry(enc);", "    while (enc->hpe_cur_capacity > enc->hpe_max_capacity + 40)\n        henc_drop_oldest_entry(enc);", ["C07"]),
+ "reset-http-host": ("src/reqpool.c", "    r->http_host = NULL;\n", "", ["C08"]),
  "else-link": ("src/configparser.y", "    C->prev = B;\n    B->next = C;\n    A = C;", "    C->prev = B;\n    A = C;", ["C14"]),
 }
 
